@@ -2,6 +2,7 @@
 import json
 from vcheck import *
 from wcommon import *
+import c20link
 
 
 def bracket_oracle(events):
@@ -19,6 +20,87 @@ def bracket_oracle(events):
     return None
 
 
+def linked_part(ck, linked, viol, dist):
+    """linked cases: start functions, several modules with the model, failure paths at depth, listener subsets."""
+    ck.trusted += ["coq/Rt/Linking.v instantiate + coq/Wasm/ListenerLink.v (history runner, host behaviours), tied to both engines by the replay of every linked history",
+                   "harness/c20/link.go (generator of linked programs, recording listener, def -> store address mapping)"]
+    ck.assumptions += ["the stack iterator is compared with the call chain of the innermost api.Function.Call: a host function that calls the guest back starts a new "
+                       "invocation whose iterator does not show the outer frames (both engines; reported, not counted as a violation)"]
+    d = {"linked_cases": len(linked), "modes": {}, "inst_ok": 0, "start_failed": {}, "skipped_steps": 0, "call_traps": {}, "calls_ok": 0, "exit_closed_modules": 0,
+         "calls_on_closed_module": 0, "linked_events": 0, "linked_aborts": 0, "linked_max_nesting": 0, "reentry_chain_cut": 0, "max_abort_run": 0,
+         "linked_model_out_of_fuel": 0, "close_cm_cases": 0}
+    for c in linked:
+        d["modes"][c["mode"]] = d["modes"].get(c["mode"], 0) + 1
+        d["close_cm_cases"] += 1 if c["close_cm"] else 0
+        A = c["engines"]["interp"]["A"]
+        for a, s in zip(c["acts"], A["steps"]):
+            if s.get("skip"): d["skipped_steps"] += 1
+            elif a["t"] == "inst":
+                if s["inst"] == "ok": d["inst_ok"] += 1
+                else: d["start_failed"][s["inst"].split(":")[0]] = d["start_failed"].get(s["inst"].split(":")[0], 0) + 1
+            elif s.get("trap"):
+                k = s["trap"].split(":")[0]
+                d["call_traps"][k] = d["call_traps"].get(k, 0) + 1
+                d["calls_on_closed_module"] += 1 if s.get("any") else 0
+            else: d["calls_ok"] += 1
+        d["exit_closed_modules"] += len(A.get("closed") or [])
+        ev = A.get("events") or []
+        d["linked_events"] += len(ev)
+        d["linked_aborts"] += sum(1 for e in ev if e[0] == 2)
+        depth = run = 0
+        for e in ev:
+            depth += 1 if e[0] == 0 else -1
+            run = run + 1 if e[0] == 2 else 0
+            d["linked_max_nesting"] = max(d["linked_max_nesting"], depth)
+            d["max_abort_run"] = max(d["max_abort_run"], run)
+        d["reentry_chain_cut"] += sum(1 for (fa, ch, st) in c20link.chains(c, ev) if len(ch) != len(st) + 1)
+    dist.update(d)
+    ck.extra["rule"] += ("; linked histories (2-3 guest modules sharing a table + a host module in all definition styles + starter modules; start section / _start / "
+                         "WithStartFunctions; host panic, exit, trap at depth; re-entry) run with every function listened, with a listener subset and without: "
+                         "bracketing, subset = projection of the full stream, stack iterator = call chain across modules, results unchanged, and the replay through "
+                         "Linking.instantiate + W (vm_compute)")
+    ck.samples += [dict(mode=c["mode"], acts=c["acts"][:6], steps=c["engines"]["compiler"]["A"]["steps"][:6], events=(c["engines"]["compiler"]["A"].get("events") or [])[:10])
+                   for c in linked[:2]]
+
+    def lviol(c, eng, kind, detail):
+        # one open finding: the compiler loses frames of modules whose CompiledModule was closed after instantiation
+        if c["close_cm"] and eng in ("compiler", "both") and kind in ("not-bracketed", "stack-iterator", "engine-vs-spec", "engines-differ", "subset-not-projection"):
+            viol("frames-lost-after-compiled-module-close", {"kind": "frames-lost-after-compiled-module-close", "engine": "compiler"},
+                 dict(detail, first_symptom=kind, case=c))
+        else:
+            viol("linked-" + kind + ("-" + eng if kind == "engine-vs-spec" else ""), {"kind": kind, "engine": eng, "linked": True}, dict(detail, case=c))
+
+    groups = []
+    for c in linked:
+        bad = False
+        for eng in ("interp", "compiler"):
+            for kind, why in c20link.oracle(c, eng):
+                bad = True
+                lviol(c, eng, kind, {"why": why})
+        a, b = c["engines"]["interp"], c["engines"]["compiler"]
+        for pn in a:
+            for key in ("steps", "events", "iters", "hlog", "globals"):
+                if not (a[pn].get("err") or b[pn].get("err")) and a[pn].get(key) != b[pn].get(key):
+                    lviol(c, "both", "engines-differ", {"why": "pass %s: %s differ between the engines" % (pn, key)}); break
+        runs = []
+        for eng in ("interp", "compiler"):
+            po = c["engines"][eng]
+            if po["A"].get("err"): continue
+            runs.append((eng, po["A"], c20link.all_mask(c)))
+            if "B" in po: runs.append((eng, po["B"], c["mask"]))
+        groups.append((c, runs))
+    mism, err = c20link.eval_linked("c20_linked", [(c, [(po, m) for (_, po, m) in runs]) for c, runs in groups])
+    if err:
+        viol("model-eval", {"kind": "model-eval"}, {"err": err}, no_input=True)
+    for gi, ri, code in mism:
+        if code == -3:
+            dist["linked_model_out_of_fuel"] += 1; continue
+        c, runs = groups[gi]
+        lviol(c, runs[ri][0], "engine-vs-spec",
+              {"code": code, "meaning": "2000 event stream; i>=0 first differing step of the history; 1000 host log; 1001 globals",
+               "pass": "A (all listened)" if runs[ri][2] is not c["mask"] else "B (" + c["mode"] + ")"})
+
+
 def run(tier, seed):
     ck = Check("C20", tier, seed)
     ck.trusted += ["coq/Wasm/Sem.v listener semantics (bracket/invoke_with), tied to both engines by the event-stream comparison",
@@ -30,12 +112,15 @@ def run(tier, seed):
     if not binp:
         ck.violation("harness-build", {"kind": "build"}, {"log": log[-3000:]}, no_input=True)
         return ck.finish()
-    rc, out = sh([binp, "-seed", str(seed), "-n", str(n)], timeout=1200)
+    ln = 24 if tier == "quick" else 600
+    rc, out = sh([binp, "-seed", str(seed), "-n", str(n), "-ln", str(ln)], timeout=1200)
     cases = jlines(out)
     if rc != 0 or not cases:
         ck.violation("harness-crash", {"kind": "crash"}, {"rc": rc, "tail": out[-3000:]})
         return ck.finish()
-    ck.cases = len(cases) * 2
+    linked = sorted([c for c in cases if c.get("kind") == "linked"], key=lambda c: not c.get("fixed"))   # the fixed (minimal) histories first
+    cases = [c for c in cases if c.get("kind") != "linked"]
+    ck.cases = len(cases) * 2 + len(linked) * 6
     dist = {"events": 0, "aborts": 0, "all_listened": 0, "subset": 0, "model_out_of_fuel": 0, "max_nesting": 0}
     for c in cases:
         dist["all_listened" if c["all"] else "subset"] += 1
@@ -48,7 +133,7 @@ def run(tier, seed):
             m = max(m, d)
         dist["max_nesting"] = max(dist["max_nesting"], m)
     ck.dist = dist
-    ck.distinct = len(set(c["wasm"] + str(c["mask"]) for c in cases))
+    ck.distinct = len(set(c["wasm"] + str(c["mask"]) for c in cases)) + len(set(str(c["wasm"]) + str(c["mask"]) for c in linked))
     ck.samples = [dict(calls=c["calls"], mask=c["mask"], events=(c["engines"]["compiler"].get("events") or [])[:12]) for c in cases[:2]]
     ck.extra["rule"] = ("generated programs (direct, indirect, imported host calls, traps unwinding through frames) x listener set (all / random subset) on both "
                         "engines; compared: event kinds, function, parameter/result values, stack iterator contents, results with vs without listeners, and W's event stream")
@@ -87,6 +172,7 @@ def run(tier, seed):
                 dist["model_out_of_fuel"] += 1; continue
             viol("engine-vs-spec-" + eng, {"kind": "engine-vs-spec", "engine": eng},
                  {"code": code, "meaning": "2000 event stream; i>=0 first differing call; 1000 host log; 1001 globals", "case": cases[idx[k]]})
+    linked_part(ck, linked, viol, dist)
     if not proofs_ok and not ck.violations:
         ck.violation("proof-broken", {"kind": "proof-broken"}, getattr(ck, "proof_failure", {}), no_input=True)
     return ck.finish()
